@@ -183,6 +183,13 @@ Definition fval_to_be (v : fval) : xres :=
   end.
 
 (* ---- conversions used by netflow_common.rs ---- *)
+(* netflow_common.rs `unsigned`: an unsigned number of any width, if it fits `bits` bits *)
+Definition fval_un (bits : N) (v : fval) : option N :=
+  match v with
+  | VNum (U8 n) | VNum (U16 n) | VNum (U24 n) | VNum (U32 n) | VNum (U64 n) | VNum (U128 n) =>
+      if n <? 2 ^ bits then Some n else None
+  | _ => None
+  end.
 Definition fval_u8 (v : fval) : option N := match v with VNum (U8 n) => Some n | _ => None end.
 Definition fval_u16 (v : fval) : option N := match v with VNum (U16 n) => Some n | _ => None end.
 Definition fval_u32 (v : fval) : option N := match v with VNum (U32 n) => Some n | _ => None end.
